@@ -344,6 +344,52 @@ def obligations(tier, sc):
                          what="4 synthetic declarations covering u8 i8 u16 i16 u32 i32 u64 i64 str, %%, custom printf formats"))
     obs.append(evspec_ob("E_evspec_synth_smallbuf", "kernel", [3], [synth[3]], ["SYNTH", "SMALLBUF=24", "NUMLEN_MAX=6"],
                          what="synthetic declaration XAd(u16 x) 'only %5u{x} and %#x{x}.' (text ends with a literal: exact fill is reachable) into every buffer length 0..24"))
+    # ---- the decoder's room bookkeeping for a STRING argument: the real ev_spec_print() on a well-formed jumbo event of the
+    # model's real str-carrying declaration (VYc / 6Yc: u32 typeid, str label) with a label of symbolic length into a SMALL
+    # caller buffer of symbolic length.  The queries above print strings of <= 8 bytes into 1024 bytes (the label always fits)
+    # and the smallbuf query has no string: a seeded change that advanced the output cursor by snprintf()'s would-have-written
+    # length instead of refusing a label that does not fit (closing quote and nil stored behind the buffer) was missed.
+    STRFIT_OUTMAX, STRFIT_LABMAX, STRFIT_NUMLEN = 48, 40, 10
+    for m in ("nosv", "nanos6"):
+        try:
+            raw = dump_evlist(sc, m)
+        except EvlistError as ex:
+            print("INCONCLUSIVE: cannot read the declaration list of %s from the working tree: %s" % (m, ex), flush=True)
+            sc.cleanup()
+            sys.exit(2)
+        cands = [(i, sg, ds, ref_decl(sg, ds)) for i, (sg, ds) in enumerate(raw)]
+        cands = [c for c in cands if c[3]["jumbo"] and c[3]["stroff"] >= 0]
+        if not cands:
+            print("INCONCLUSIVE: model %s lists no jumbo event with a string argument" % m, flush=True)
+            sc.cleanup()
+            sys.exit(2)
+        i, sg, ds, d = cands[0]
+        # literal text of the description around its arguments (reference parse; '%%' is one output character)
+        lit = [len(x.replace("%%", "%")) for x in re.split(r"%(?!%)[^{%]*\{[A-Za-z0-9]+\}", ds)]
+        pre, mid, post = lit[0], sum(lit[1:-1]), lit[-1]
+        obs.append(Obligation(
+            name="E_evspec_strfit_%s" % m, harness="C19/evspec_strfit.c",
+            defines=["M_%s" % m, "EV_IDX=%d" % i, "EV_PSIZE=%d" % d["psize"], "EV_STROFF=%d" % d["stroff"],
+                     "SF_PRE=%d" % pre, "SF_MID=%d" % mid, "SF_POST=%d" % post,
+                     "OUTMAX=%d" % STRFIT_OUTMAX, "LABMAX=%d" % STRFIT_LABMAX, "NUMLEN_MAX=%d" % STRFIT_NUMLEN],
+            srcs=["src/rt/ovni.c"], incdirs=UTHASH, unwind=72, timeout=900, native_cflags=NATIVE_GC,
+            extra=["--object-bits", "12", "--max-field-sensitivity-array-size", "256"],
+            desc=dict(functions=["ev_spec_print", "format_region", "parse_printf_format", "parse_arg_name", "ev_spec_find_arg", "print_arg (STR and numeric cases)", "advance_out",
+                                 "ev_spec_compile", "parse_signature", "parse_args", "parse_arg", "parse_type (src/emu/ev_spec.c)", "emu_ev", "ovni_payload_size"],
+                      symbolic="caller's buffer length L = 1..%d; one well-formed jumbo event of declaration %d of the real evlist of %s (%s): clock, every byte of the "
+                               "fixed-width arguments (typeid), label length N = 0..%d, every label byte (non-nil), nil inside the payload, jumbo size = arguments + N + 1; "
+                               "formatted length 1..%d of a number" % (STRFIT_OUTMAX, i, m, sg, STRFIT_LABMAX, STRFIT_NUMLEN),
+                      bound="buffers of <= %d bytes and labels of <= %d bytes (the bookkeeping is the same arithmetic for ovnidump's 1024-byte buffer and longer labels); all (L, number "
+                            "length) pairs by case split, label length symbolic inside each case" % (STRFIT_OUTMAX, STRFIT_LABMAX),
+                      out="malformed payloads (E_evspec_%s: short payload, missing nil); model_event_print/check_payload in front of ev_spec_print (same query); the digits libc prints "
+                          "for a number (any length 1..%d of non-nil characters is assumed)" % (m, STRFIT_NUMLEN),
+                      oracle="caller's buffer END-ALIGNED in its object: CBMC's pointer/bounds checks see every store behind out[L-1]; canary bytes in front of the buffer (and behind it "
+                             "in the native replay) unchanged; every snprintf window lies inside the buffer; the call returns; return 0 => a nil was stored inside out[0..L) (the buffer "
+                             "is pre-filled with non-nil bytes); any other return value is a refusal",
+                      assumptions=["snprintf of a string (%s): C99 model of stubs/libc_model.h (stores at most cap-1 characters + nil, returns the would-have-written length; bin/selftest compares it with glibc)",
+                                   "snprintf of a number: arbitrary length 1..%d, same return-value contract" % STRFIT_NUMLEN,
+                                   "reference parse of the signature/description in Python (checks/C19.py) gives the payload layout and the literal text lengths (%d, %d, %d: witnesses only)" % (pre, mid, post),
+                                   "strtok_r/isgraph/isalnum: stubs/libc_model.h"])))
     # ---- ovnisort on VALID streams with a small, wrapping look-back ring: memory safety of the whole stream_winsort
     # (ring_add wrap-around, find_destination's backwards search).  These are C16's layout obligations (real
     # ovnisort.c, every clock and the ring size symbolic) re-run under this property: a seeded change started the
